@@ -16,18 +16,30 @@ TECHNIQUE = "trace refinement against the Lean tree model (Tree.step re-executes
 RULE = "case = one traced run of a random configuration (1-3 levels, engine per level from the full list, every shipped GSC/LSC kind plus user-defined ones, both stock sprout mechanisms and user-composed chains, hibernation on/off, both directions, decimal boxes, optional cutoff/precision/stats wrappers, shared or per-level problems); non-trivial = run with >= 2 demes and >= 2 metaepochs; distinct by configuration hash"
 ASSUMPTIONS = ["objective is deterministic and never returns NaN", "runs are capped at 12 metaepochs by a user-level composite stop condition"]
 FORCE = None
+
+
+def shaped(rng):
+    """half of the runs: evaluation-based conditions with small limits (they fire inside generations and inside
+    the initial population of fresh demes), multi-generation levels"""
+    if rng.random() < 0.5:
+        k = int(rng.integers(0, 3))
+        lim = int(rng.integers(30, 260))
+        g = [{"kind": "SingularProblemEvalLimitReached", "limit": lim}, {"kind": "FitnessEvalLimitReached", "limit": lim, "weights": str(rng.choice(["equal", "list"]))}, {"kind": "User", "evals": lim, "metaepochs": 12, "look": False}][k]
+        return {"gsc": g, "nlev": int(rng.choice([2, 2, 3])), "min_generations": 3}
+    return {}
+
 PID = "C05"
 
 
 def run(ctx):
     return [
-        refine.refine_batch(ctx, ctx.size(120, 1500), force=FORCE, pid=PID, name="trace-refinement(Tree.step vs DemeTree.run)"),
-        runs.monitor_batch(ctx, PID, ctx.size(250, 3000), force=FORCE),
+        refine.refine_batch(ctx, ctx.size(120, 1500), force=shaped, pid=PID, name="trace-refinement(Tree.step vs DemeTree.run)"),
+        runs.monitor_batch(ctx, PID, ctx.size(250, 3000), force=shaped),
     ]
 
 
 def search(ctx, broken):
-    return runs.monitor_batch(ctx, PID, 500, salt=97, force=FORCE).violations
+    return runs.monitor_batch(ctx, PID, 500, salt=97, force=shaped).violations
 
 
 def replay(data):
